@@ -19,6 +19,7 @@ def dispatch (line : String) : String :=
     else if cmd == "smt" then cmdSmt args
     else if cmd == "cfg" then cmdCfg args
     else if cmd == "asm" then cmdAsm args
+    else if cmd == "asmspec" then cmdAsmSpec args
     else s!"bad-op {cmd}"
   | [] => "bad-op"
 
